@@ -155,8 +155,18 @@ def check_malloc_cpp(ctx, tu, tag, keytag):
         size, align = params(f)
         bad = False
         for p in mpaths:
+            if p.kind != 'return' and p.throws():
+                t0 = p.throws()[-1]
+                nullres = [bare(e[1]) for e in p.calls(lambda q: bare(q) in FAMILIES or bare(q) in UNALIGNED)
+                           if (ev_result_bounds(p, e) or (1, 1)) == (0, 0)]
+                bad = True
+                report(ctx, p, R, inst, 'alignedMalloc throws %s (at %s)%s; the contract is "returns either null or an aligned pointer": '
+                       'a request the back end answers with null - e.g. size 0 with the TBB allocator - must come back as null, callers '
+                       'such as aligned_allocator test the result and choose their own exception'
+                       % (t0[1], t0[2], ' when %s returns null' % nullres[0] if nullres else ''), t0[2], key + 'throws-instead-of-null')
+                continue
             if p.kind != 'return':
-                ctx.undecided(R, inst, 'a path does not return (throws or aborts)', tu.fn_loc(f))
+                ctx.undecided(R, inst, 'a path does not return (aborts)', tu.fn_loc(f))
                 bad = True
                 continue
             wrong = p.calls(lambda q: bare(q) in UNALIGNED)
@@ -361,6 +371,7 @@ def check_malloc_cpp(ctx, tu, tag, keytag):
     return n
 
 
+REALLOCS = ('scalable_aligned_realloc', 'scalable_realloc', 'realloc', '_aligned_realloc', 'reallocarray')
 WRITERS = {'memset': (0, 2), 'memcpy': (0, 2), 'memmove': (0, 2), '__builtin_memset': (0, 2), '__builtin_memcpy': (0, 2),
            'bzero': (0, 1), 'explicit_bzero': (0, 1)}       # name -> (index of destination, index of length)
 
@@ -892,7 +903,21 @@ def check_allocate_paths(ctx, R, inst, key, tu, f, paths, sz, A, M):
                       '%d (sizeof(T) = %d): an element count above max_size() can pass the overflow test, and alignedMalloc is then asked '
                       'for the small wrapped byte count and reports success' % (e[3], text, M, sz), loc,
                       key=key + 'overflow-check-on-wrapped-product')
+    hint = params(f)[1] if len(f['params']) == 2 else None
     for p in paths:
+        rc = p.calls(lambda q: bare(q) in REALLOCS)
+        if rc:
+            bad = True
+            e = rc[0]
+            a0 = deconv(unconv(e[3][0])) if e[3] else None
+            if hint is not None and a0 == hint:
+                report(ctx, p, R, inst, 'allocate(n, hint) hands the hinted block itself to %s: the hint only names a neighbourhood, the block '
+                       'behind it is still owned by somebody else - after the call it has been resized, moved or freed under its owner and '
+                       'two owners release the same storage; required: a fresh block from alignedMalloc' % bare(e[1]), e[4],
+                       key + 'hint-block-reallocated')
+            else:
+                ctx.undecided(R, inst, '%s is called on `%s`' % (bare(e[1]), show_val(e[3][0]) if e[3] else ''), e[4])
+            continue
         if wrapped_conds and any(e[0] == 'wrap-in-condition' for e in p.events):
             continue            # nothing was learnt about n on these paths; the defect is reported above
         lo, hi = p.bounds(Na)
